@@ -6,8 +6,8 @@ from selkit import *
 ID = "C19"
 GEN = []
 THEOREMS = ["C19_round_robin_is_outer_major", "C19_no_ref_product", "C19_no_ref_descendant", "C19_no_ref_text",
-            "C19_root_identity", "C19_ref_compound_partial", "C19_ref_suffix_name", "C19_ref_simple_added",
-            "C19_refuted_star_suffix"]
+            "C19_root_identity", "C19_ref_compound_partial", "C19_ref_product_partial", "C19_ref_suffix_name", "C19_ref_simple_added",
+            "C19_suffix_error", "C19_suffix_error_sound", "C19_refuted_host_parent"]
 COQ_HEADER = ("From Coq Require Import List NArith ZArith.\nFrom RV Require Import Model.Sel Run.C19.\n"
               "Import ListNotations.\nLocal Open Scope list_scope.")
 RUN_EXPR = "Run.C19.run"
@@ -73,7 +73,7 @@ def gen_outer(rng):
 
 C = comp
 CORPUS = [
-    [[sel(C(el="*"))], [sel(C(el="b", br=True))]],                                     # F3  `*{&b{x:y}}`
+    [[sel(C(el="*"))], [sel(C(el="b", br=True))]],                                     # F3 (fixed)  `*{&b{x:y}}`
     [[sel(C(el="a"))], [sel(C(el="b", br=True))]],
     [[sel(C(cl=["a"]))], [sel(C(el="-x", br=True))]],
     [[sel(C(el="a", at=[["x", "", "", 0, None]]))], [sel(C(el="-s", br=True))]],
@@ -139,7 +139,7 @@ def coq_term(c, io):
     return f"(mkCase {lv} {1 if tag == 'err' else 2}%N None)"
 
 
-KCLASS = {0: None, 1: "known_C19_K1_suffix_on_non_name", 2: "known_C19_K2_host_parent",
+KCLASS = {0: None, 1: None, 2: "known_C19_K2_host_parent",
           3: "known_C19_K3_pseudo_element_parent", 4: "known_C19_K4_two_ids"}
 
 
@@ -181,8 +181,8 @@ LEVEL_TEXT = ("proof: over the model of Selector::nest / CssSelectorSet::nest / 
               "equally long parts is the outer-major product; without `&` the nested list is [nest o i | o <- outers, "
               "i <- inners], each a descendant combination whose text is `outer inner`; nesting under the root is the "
               "identity; `&suffix` on a compound ending in a name glues the suffix, `&` plus simple selectors adds them "
-              "to the outer compound; the full statement is refuted on the faithful model (`*{&b}` panics) and holds on "
-              "generated nests outside four recorded classes; model tied to the code by correspondence of the emitted text")
+              "to the outer compound; a suffix the model refuses is refused by the Sass reading too (`*{&b}` is an error since dfe7d33); the full "
+              "statement is refuted on the faithful model (`:host{&.foo}`) and holds on generated nests outside three recorded classes; model tied to the code by correspondence of the emitted text")
 LEVEL_NOTE = ("trusted: Coq kernel+vm_compute, the harness, the two Spec files, the python printer, the structural account of "
               "print-and-reparse in comp_append; `&` theorems are stated for single outer selectors (partial); declaration "
               "order is not covered")
